@@ -38,7 +38,7 @@ def kvRows : List Row := [
   (svc ["deploy", "labels"], some .toSeq, some .keyValue),
   (["networks", "n", "labels"], some .toSeq, some .keyValue)]
 
-/-- the row the unchanged tree does not honour (`override.unique` has no `volumes.*.labels`) -/
+/-- the row the tree did not honour before the round-2 repair (`override.unique` had no `volumes.*.labels`) -/
 def volumeLabelsRow : Row := (["volumes", "v", "labels"], some .toSeq, some .keyValue)
 
 def otherRows : List Row := [
@@ -90,7 +90,7 @@ def otherRows : List Row := [
 /-- the rule table as the property states it -/
 def expected : List Row := kvRows ++ [volumeLabelsRow] ++ otherRows
 
-/-- the part of it the unchanged tree honours -/
+/-- the part of it the tree honoured before the repair (kept for `Neg/C04.lean`) -/
 def expectedPartial : List Row := kvRows ++ otherRows
 
 /-- what the regenerated Go tables say at a path -/
